@@ -112,11 +112,13 @@ type ViolationRecord struct {
 }
 
 type ReplayResult struct {
-	Reproduced bool   `json:"reproduced"`
-	Class      string `json:"class"`
-	Detail     string `json:"detail"`
-	SameTrace  bool   `json:"same_trace"`
-	Known      string `json:"known,omitempty"`
+	Reproduced bool          `json:"reproduced"`
+	Class      string        `json:"class"`
+	Detail     string        `json:"detail"`
+	SameTrace  bool          `json:"same_trace"`
+	Known      string        `json:"known,omitempty"`
+	TraceHash  string        `json:"trace_hash"`
+	Trace      []simrt.Event `json:"trace,omitempty"`
 }
 
 // ReplayFile is the on-disk format of a failing plan.
@@ -250,7 +252,10 @@ func Main(t *testing.T, h *Harness) {
 			res.Inconclusive = append(res.Inconclusive, out.Inconclusive)
 			return
 		}
-		rr := &ReplayResult{}
+		rr := &ReplayResult{TraceHash: fmt.Sprintf("%016x", out.TraceHash)}
+		if os.Getenv("VERIF_REPLAY_TRACE") != "" {
+			rr.Trace = out.Trace
+		}
 		if out.Violation != nil {
 			rr.Reproduced = out.Violation.Class == rf.Class
 			rr.Class = out.Violation.Class
